@@ -105,7 +105,10 @@ def run_one(m, repo, slot, pids=None):
         res['fired'] = fired
         exp = res['expect']
         hit = [f for f in fired if not exp or any(f['ob'] == e or f['ob'].startswith(e) for e in exp)]
-        res['status'] = 'killed' if hit else ('killed-elsewhere' if fired else 'missed')
+        if m.get('neutral'):
+            res['status'] = 'FALSE-ALARM' if fired else 'quiet-ok'
+        else:
+            res['status'] = 'killed' if hit else ('killed-elsewhere' if fired else 'missed')
         return res
     finally:
         shutil.rmtree(scratch, ignore_errors=True)
